@@ -17,7 +17,7 @@ struct Gen {
     size_profile: u8,
     vital_pct: u64,
     allow_over: bool,
-    max_len: u16,
+    max_len: u32,
 }
 
 impl Gen {
@@ -25,7 +25,7 @@ impl Gen {
         self.tag += 1;
         self.tag
     }
-    fn len(&mut self) -> u16 {
+    fn len(&mut self) -> u32 {
         let m = self.max_len as u64;
         let l = match self.size_profile {
             0 => self.s.range(0, 16),
@@ -43,9 +43,13 @@ impl Gen {
         };
         let l = l.min(m);
         if self.allow_over && self.s.chance(1, 12) {
-            return *self.s.pick(&[1391u16, 1392, 1393, 1394, 1400, 1401, 2000, 2047, 2048, 2049, 4095, 4096, 5000]);
+            if self.s.chance(1, 8) {
+                // lengths that only differ from acceptable ones beyond 16 bits
+                return *self.s.pick(&[32767u32, 32768, 65535, 65536, 65537, 66000, 66926, 66927, 131072, 131073, 200_000]);
+            }
+            return *self.s.pick(&[1391u32, 1392, 1393, 1394, 1400, 1401, 2000, 2047, 2048, 2049, 4095, 4096, 5000]);
         }
-        l as u16
+        l as u32
     }
     fn pick(&mut self) -> i32 {
         if self.reorder > 0 && self.s.chance(self.reorder, 1000) {
@@ -180,16 +184,22 @@ pub fn generate(prop: NetProp, seed: u64, tier: Tier) -> Case<NetCfg, NetOp> {
     } };
     // window + age stays below the 10-bit sequence space with a margin
     let age = if backlog { 200 } else { c.range(200, 400) as u32 };
+    let cfg_seed = c.next_u64();
+    let stateless_accept = proto == Proto::V6Token && c.chance(1, 6);
+    // several sessions on the same Connection objects (disconnect, reset(), connect again)
+    let sessions: usize = if !wrap && !backlog && matches!(prop, NetProp::C01 | NetProp::C02 | NetProp::C04) && c.chance(1, 7) { 2 + c.below(2) as usize } else { 1 };
+    // C04: authenticated forged / reflected / mangled datagrams (per mille of main-phase steps)
+    let forge: u64 = if prop == NetProp::C04 && c.chance(1, 3) { c.range(20, 250) } else { 0 };
     let cfg = NetCfg {
         proto,
-        seed: c.next_u64(),
+        seed: cfg_seed,
         window,
         age,
         weak_rng: weak,
-        stateless_accept: proto == Proto::V6Token && c.chance(1, 6),
+        stateless_accept,
         profile: format!(
-            "faults[loss={} dup={} reorder={} sendfail={} skew={} weak={:?}] size={} ops={} n~{}",
-            loss, dup, reorder, sendfail, skew, weak, size_profile, op_profile, n_target
+            "faults[loss={} dup={} reorder={} sendfail={} skew={} weak={:?} forge={}] size={} ops={} n~{} sessions={}",
+            loss, dup, reorder, sendfail, skew, weak, forge, size_profile, op_profile, n_target, sessions
         ),
     };
     let mut g = Gen {
@@ -210,6 +220,24 @@ pub fn generate(prop: NetProp, seed: u64, tier: Tier) -> Case<NetCfg, NetOp> {
         allow_over: prop == NetProp::C04,
         max_len: if prop != NetProp::C04 && !proto.is_v7() { 1030 } else { 1390 },
     };
+    let n_total = n_target;
+    for session in 0..sessions {
+    if session > 0 {
+        // the applications close the session (sometimes politely, sometimes the Restart does it)
+        if g.s.chance(2, 3) {
+            let ep = g.s.below(2) as u8;
+            let reason_len = *g.s.pick(&[0u8, 0, 1, 20, 127]);
+            let tag = g.tag();
+            g.ops.push(NetOp::Disconnect { ep, reason_len, tag });
+            let r = g.s.range(0, 2);
+            g.pump(r);
+        }
+        g.ops.push(NetOp::Restart { soft: g.s.chance(1, 3) });
+        if g.s.chance(1, 4) {
+            g.time();
+        }
+    }
+    let n_target = g.ops.len() + n_total / sessions;
     // ---- opening
     if prop == NetProp::C04 && g.s.chance(1, 12) {
         // disconnect (reject) before any handshake
@@ -244,6 +272,12 @@ pub fn generate(prop: NetProp, seed: u64, tier: Tier) -> Case<NetCfg, NetOp> {
             let n = g.s.below(3);
             inject(&mut g, n);
         }
+        if forge > 0 && g.s.chance(forge, 600) {
+            let ep = g.s.below(2) as u8;
+            let kind = g.s.below(8) as u8;
+            let salt = g.s.next_u64();
+            g.ops.push(NetOp::Forge { ep, kind, salt });
+        }
         if prop == NetProp::C04 && g.s.chance(1, 40) {
             let ep = g.s.below(2) as u8;
             let reason_len = *g.s.pick(&[0u8, 1, 3, 4, 20, 126, 127]);
@@ -270,7 +304,7 @@ pub fn generate(prop: NetProp, seed: u64, tier: Tier) -> Case<NetCfg, NetOp> {
         let n = g.s.range(520, 700);
         let every = g.s.range(1, 60);
         for k in 0..n {
-            let len = g.s.range(0, 3) as u16;
+            let len = g.s.range(0, 3) as u32;
             let fill = g.s.below(4) as u8;
             let tag = g.tag();
             g.ops.push(NetOp::Send { ep, vital: true, len, fill, tag });
@@ -368,6 +402,15 @@ pub fn generate(prop: NetProp, seed: u64, tier: Tier) -> Case<NetCfg, NetOp> {
             let n = g.s.range(1, 3);
             inject(&mut g, n);
         }
+        if forge > 0 && g.s.chance(forge, 1000) {
+            let ep = g.s.below(2) as u8;
+            let kind = g.s.below(8) as u8;
+            let salt = g.s.next_u64();
+            g.ops.push(NetOp::Forge { ep, kind, salt });
+            if g.s.chance(1, 2) {
+                g.pump(1);
+            }
+        }
         if prop == NetProp::C04 && !disconnected && g.s.chance(1, 300) {
             disconnected = true;
             let ep = g.s.below(2) as u8;
@@ -377,6 +420,7 @@ pub fn generate(prop: NetProp, seed: u64, tier: Tier) -> Case<NetCfg, NetOp> {
             g.pump(2);
         }
     }
+    } // sessions
     if prop == NetProp::C02 {
         g.ops.push(NetOp::FairSuffix { latency: g.s.below(4) as u8 });
     } else if g.s.chance(1, 2) {
@@ -390,7 +434,7 @@ pub fn simplify_op(op: &NetOp) -> Vec<NetOp> {
     let mut v = Vec::new();
     match *op {
         NetOp::Send { ep, vital, len, fill, tag } => {
-            for l in [0u16, 1, 6, 8, 64, 1023, 1024, 1387, 1388, 1390, 1391] {
+            for l in [0u32, 1, 6, 8, 64, 1023, 1024, 1387, 1388, 1390, 1391, 65536] {
                 if l < len {
                     v.push(NetOp::Send { ep, vital, len: l, fill, tag });
                 }
